@@ -52,8 +52,11 @@ func main() {
 
 func run(col *core.Collector, prop, tier, variant string, seed uint64, shard, nshards int, replayDir, out string) {
 	switch prop {
-	case "C01", "C03", "C07", "C10", "C11", "C12", "C13":
+	case "C01", "C03", "C07", "C10", "C11", "C12":
 		seq.RunProperty(col, prop, tier, seed, shard, nshards, replayDir)
+	case "C13":
+		seq.RunProperty(col, prop, tier, seed, shard, nshards, replayDir)
+		seq.RunSched(col, tier, seed, shard, nshards, replayDir)
 	case "C20", "C04", "C05", "C06":
 		if variant == "plain" {
 			seq.RunProperty(col, prop, tier, seed, shard, nshards, replayDir)
@@ -88,6 +91,8 @@ func replayFile(col *core.Collector, prop, path string) error {
 	switch {
 	case bytes.Contains(data, []byte(`"seq-regenerate"`)):
 		return seq.Regenerate(col, data, path)
+	case bytes.Contains(data, []byte(`"sched_case"`)):
+		return seq.ReplaySched(col, data, path)
 	case bytes.Contains(data, []byte(`"persist_case"`)):
 		return seq.ReplayPersist(col, data, path)
 	default:
